@@ -23,6 +23,21 @@ CHECKS = {
  "C19": ("exploration", "exhaustive enumeration of all 2^32 codes against an independent table",
          "ShapeType::from / as i32 / predicates / Display checked for every 32-bit code (complete); the from-a-file path (Header::read_from, Shape::read_from) exhaustively in thorough and on a structured + generated subset in quick.",
          "Trusted: the 14-row table in vlib/model.rs.", "DESIGN.md §3 C19"),
+ "C03": ("exploration", "property-based testing (proptest): differential against a reference encoder driven by a generated file model",
+         "File models drawn directly (foreign layouts: absent M blocks, 24-byte PointZ, null records, empty/zero parts, arbitrary boxes and record numbers, trailing bytes) are encoded by an independent reference encoder; the reader's output must equal the model record by record.",
+         "Trusted: vlib/refcodec.rs encoder (pinned to third-party fixtures); ring roles asserted only on exactly computable non-zero areas.", "DESIGN.md §3 C03"),
+ "C09": ("exploration", "bounded-exhaustive enumeration of write/finalize histories; metamorphic comparison with write-and-drop plus independent decoding after each finalize",
+         "All interleavings of {write a, write b, finalize} up to the stated length, for every type, ending and index configuration: final bytes equal the write-and-drop reference, each finalize leaves flushed complete files, idle finalize does no I/O. Complete within the bound.",
+         "Trusted: logging destination double (vlib/io.rs); one generated pair of shapes per type and seed.", "DESIGN.md §3 C09"),
+ "C10": ("exploration", "bounded-exhaustive enumeration of histories over all 156 ordered type pairs; op-log comparison across rejected calls",
+         "Every rejected write must return the exact mismatch error and leave op logs and bytes of all destinations (incl. dbf) unchanged; final files equal those of the history without the rejected calls. Complete within the bound.",
+         "Trusted: logging destination double.", "DESIGN.md §3 C10"),
+ "C14": ("exploration", "property-based testing (proptest): reference encoder with generated physical permutation and filler runs",
+         "Files whose records are physically permuted and separated by generated filler (zeros, random, header-like, whole fake records) are read with their index; iteration must follow the index alone and agree with random access and the count.",
+         "Trusted: reference encoder; filler lengths are even (index offsets are in 16-bit words).", "DESIGN.md §3 C14"),
+ "C15": ("exploration", "bounded-exhaustive enumeration of reader call histories against an explicit reference state machine",
+         "All sequences (up to the stated length) of iterate-j / read_nth / seek / shape_count on ShapeReader with index, of iterate / seek / count on the complete Reader (rows carry their index), and of iterations on an index-less reader are compared with a ~40-line reference model. Complete within the bound.",
+         "Trusted: the reference model; a read_nth returning None is modelled as not moving the reader.", "DESIGN.md §3 C15"),
  "C01": ("exploration", "property-based testing (proptest, seeded, shrinking): write->read round trip with an explicit normalisation model",
          "Generated shape sequences of all 13 types are written through ShapeWriter and read back through every route (generic/typed x iterate/collect/random access x with/without .shx x memory/disk); an oracle built from accessor views as f64 bit patterns decides equality. Bounded random exploration, not proof.",
          "Trusted: proptest generators, the accessor view of constructed values; ring roles asserted only where the signed area is exactly computable and non-zero.", "DESIGN.md §3 C01"),
